@@ -36,6 +36,10 @@ CLAIMED["C15"] = ("model_checking", "5 C15",
     "Inductive step: every CSI command of the current CSI_COMMANDS table (through parse_csi), every C0 control and printable byte (through addbyte) and resize, from an "
     "arbitrary valid TermCanvas state on small grids; invariants on every path and one-step refinement of an independent VT100 model; arbitrary short byte streams never raise.",
     "z3 trusted; the finite state/parameter space is enumerated through the solver (indices are concretised by list operations), modes stay symbolic; grids <= 3x3 quick / 5x4 thorough; the VT100 model is part of the trusted base.")
+CLAIMED["C20"] = ("model_checking", "5 C20",
+    "Scrollable.render/_adjust_trim_top run on unbounded symbolic content height, view size and stored position for each pending action; slice start, range and position "
+    "arithmetic decided by the solver; ScrollBar parts read from the materialised bar for a symbolic, unbounded position (monotonicity over two copies).",
+    "z3 trusted; abstract child; scrollbar views up to 6 rows / 16 content rows.")
 NOT_YET = {}
 TECH = "bounded symbolic execution of the real urwid code (AST-lifted import of /repo) with z3 deciding every path obligation; counterexamples replayed on the un-lifted code"
 def main():
